@@ -259,12 +259,12 @@ def coq_case(cfg, r, lits=None):
     decisions = "[" + "; ".join(cbool(s["acc_after"] > s["acc_before"]) for s in r.snaps) + "]"
     return (
         "{| sc_hmc := %s;\n sc_mis := %s;\n sc_grad := %s;\n sc_kin := %s;\n sc_kgrad := %s;\n sc_exp := %s;\n"
-        " sc_pow := %s; sc_massdiag := None; sc_nsp := %s; sc_stepvec := %s;\n"
+        " sc_pow := %s; sc_massdiag := None; sc_genmom := %s; sc_nsp := %s; sc_stepvec := %s;\n"
         " sc_tune := %s; sc_target := %s; sc_min := %s; sc_integ := %d%%nat; sc_lits := %s; sc_steps := %d%%nat;\n"
         " sc_m0 := %s; sc_step0 := %s; sc_thin := %d%%nat;\n sc_evs := %s;\n x_cols := %s;\n"
         " x_cur := %s; x_curx := %s; x_acc := %d%%nat; x_step := %s; x_hist_a := %s; x_hist_s := %s;\n"
         " x_decisions := %s;\n x_trace := %s |}"
-        % (cbool(cfg["kind"] == "hmc"), tbl(mis), vtbl(grad), tbl(kin), vtbl(kgrad), exp_t, pow_t, fvec(nsp),
+        % (cbool(cfg["kind"] == "hmc"), tbl(mis), vtbl(grad), tbl(kin), vtbl(kgrad), exp_t, pow_t, vtbl(getattr(r, "genmom_tbl", [])), fvec(nsp),
            copt(stepvec, fvec), cbool(cfg["tune"]), fhex(cfg["target"]), fhex(1e-18), integ, fvec(lit), steps,
            fvec(cfg["m0"]), fhex(step0), cfg["t"], evs, cols, fvec(r.cur), fhex(r.cur_x), r.acc,
            fhex(float(numpy.asarray(r.final_step).flatten()[0]) if not (cfg["kind"] == "rwmh" and cfg["stepmode"] == "vector" and not cfg["tune"]) else 1.0),
